@@ -324,10 +324,10 @@ func (m *mon) clean(ps []k8s.Port, before, after map[string][]nf.Rule, err error
 		}
 	}
 	if err != nil {
-		// cleaning ports that are not (completely) set up fails with the real `iptables -C` semantics
-		// (jump target does not exist): recorded by the caller, not a violation of C14
-		if !injected && setUp {
-			m.add("clean-failed", "CleanPortMapping failed for well-formed ports that were set up: "+err.Error())
+		// since the fix a5e6428 (EnsureChain before the DeleteRule loop) cleanup must succeed whether or not the
+		// ports are (completely) set up
+		if !injected {
+			m.add("clean-failed", "CleanPortMapping failed for well-formed ports: "+err.Error())
 		}
 		return
 	}
@@ -549,8 +549,8 @@ func execPM(c *ctx, ops []string) *caseResult {
 				case "setup":
 					m.setup(ps, before, after, callErr)
 				case "clean":
-					if up := m.clean(ps, before, after, callErr, injected); !up && callErr != nil {
-						c.r.Hit("pm:clean:not-set-up-fails")
+					if up := m.clean(ps, before, after, callErr, injected); !up {
+						c.r.Hit("pm:clean:of-ports-not-set-up")
 					}
 				case "sync":
 					m.sync(ps, before, after, callErr)
